@@ -154,6 +154,7 @@ Definition conformant_fs (puf : bool) (s : v9state) (f : fs_spec) : Prop :=
   | FOTemplates ts pad => Forall wf_otemplate ts /\ (length pad < 6)%nat
   | FOData id scope opts pad =>
       (id < 65536)%N /\ id <> v9_template_id /\ id <> v9_options_template_id
+      /\ lookup id (v9_t s) = None      (* the id names one template (else see K_C06_kind_change) *)
       /\ exists t, lookup id (v9_o s) = Some t
            /\ Forall (fun f => scope_known (sf_type f) = true /\ (0 < sf_len f)%N) (ot_scope t)
            /\ Forall (fun f => (0 < tf_len f)%N) (ot_opts t)
@@ -192,7 +193,7 @@ Proof.
   - destruct Hc as [Hwf Hp]. inversion Hx; subst. unfold parse_body.
     change (1 =? v9_template_id)%N with false. change (1 =? v9_options_template_id)%N with true. cbn iota.
     rewrite (decode_otemplates ts pad Hwf Hp). reflexivity.
-  - destruct Hc as [_ [H0 [H1 [t [Ht [Hks Hko]]]]]]. rewrite Ht in Hx.
+  - destruct Hc as [_ [H0 [H1 [_ [t [Ht [Hks Hko]]]]]]]. rewrite Ht in Hx.
     destruct (pair_scope (ot_scope t) scope) as [sc|] eqn:Es; [|discriminate].
     destruct (pair_opts (ot_opts t) opts) as [op|] eqn:Eo; [|discriminate]. inversion Hx; subst.
     unfold parse_body. destruct (N.eqb_spec id v9_template_id); [contradiction|].
